@@ -178,13 +178,32 @@ func Verif_c08_stmtsseq() {
 	verifReach("end")
 }
 
+var verifReuseFirsts = [...]string{
+	"cat <<-EOF\n\t$(a |\n\tb)\n\tEOF\n", "cat <<-EOF\n\t$(if a; then\n\tb; fi)\n\tEOF\n", "foo &", "a # c", "if a; then\n\tb\nfi # d\n", "{ a\n\tb; }\ncase x in\ny) z ;;\nesac",
+	"a |\n\tb &&\n\tc", "f() {\n\ta <<E\nx\nE\n}\n", "a=(\n\tb # c\n)", "echo 'unterminated", "$(", "a <<E", "((1 +", "a \\\n\tb \\\n\tc",
+}
+
 // Verif_c08_reuse: a parser/printer used before on another input (possibly
 // erroring) behaves like a fresh one.
 func Verif_c08_reuse() {
 	n := verifParam("n")
 	m := verifParam("m")
 	lang := verifLang(verifParam("lang"))
-	first := verifBytes("first", m)
+	var first []byte
+	if m == -2 {
+		// a short list of earlier inputs that leave much printer and parser state behind
+		first = []byte(verifReuseFirsts[verifChoice("prog0", len(verifReuseFirsts))])
+	} else if m < 0 {
+		// the earlier input is a corpus program too (its hole reads "a")
+		first = []byte(verifCorpus[verifChoice("prog0", len(verifCorpus))])
+		for i := range first {
+			if first[i] == 1 {
+				first[i] = 'a'
+			}
+		}
+	} else {
+		first = verifBytes("first", m)
+	}
 	src := verifSrc(n)
 	p := NewParser(Variant(lang), KeepComments(true))
 	f0, _ := p.Parse(bytes.NewReader(first), "")
@@ -197,6 +216,13 @@ func Verif_c08_reuse() {
 		var b0, b1, b2 bytes.Buffer
 		if f0 != nil {
 			pr.Print(&b0, f0)
+		}
+		// a command node printed on its own right after the earlier input
+		if len(f1.Stmts) > 0 && f1.Stmts[0].Cmd != nil {
+			var c1, c2 bytes.Buffer
+			ce1 := pr.Print(&c1, f1.Stmts[0].Cmd)
+			ce2 := NewPrinter().Print(&c2, f2.Stmts[0].Cmd)
+			verifAssert((ce1 == nil) == (ce2 == nil) && c1.String() == c2.String(), "reused printer prints a command node differently")
 		}
 		e1 := pr.Print(&b1, f1)
 		e2 := NewPrinter().Print(&b2, f2)
